@@ -57,8 +57,11 @@ func (g *Gen) schemaCheck(o *Occ) {
 		case SCustom:
 			// C17: the entry is what GenSchema<S> returned for the attribute the field would otherwise get
 			w(`  vrt.Assert("C17/"+path+"/%s:schema-hook-result", vrt.SameType(a.Type, customAttrType_%s()))`, name, s.Suffix)
-			w(`  vrt.Assert("C17/"+path+"/%s:schema-hook-argument", a.Description == %q && a.Required == %v && a.Optional == %v && a.Computed == %v && a.Sensitive == %v)`,
-				name, s.Comment, s.Required, !s.Required, s.Computed, s.Sensitive)
+			if g.HookPassThrough {
+				// the corpus hooks return their argument with Type set, so the argument is observable
+				w(`  vrt.Assert("C17/"+path+"/%s:schema-hook-argument", a.Description == %q && a.Required == %v && a.Optional == %v && a.Computed == %v && a.Sensitive == %v)`,
+					name, s.Comment, s.Required, !s.Required, s.Computed, s.Sensitive)
+			}
 		}
 		w(`}`)
 	}
